@@ -63,3 +63,11 @@ def logging_as_shipped(level="DEBUG"):
         root.addHandler(h)
         root.setLevel(logging.NOTSET if level == "DEBUG" else lvl)
         _LOGGING["on"] = level
+
+
+def mkdtemp(tag, odd=True):
+    """scratch directory for the files handed to the tools.  odd: its name holds a blank
+    and characters that mean something to globs, shells and format strings - to the
+    tools it is a directory name"""
+    import tempfile
+    return tempfile.mkdtemp(prefix=("pv %s [k]%%s{0}~-" if odd else "pv-%s-") % tag)
